@@ -157,12 +157,12 @@ fn new_id(ty: u32, val: u64, clone_of: u32) -> u32 {
 }
 
 /// Alignment markers.
-pub trait Al: 'static + Copy + Send + Sync + PartialEq + Eq + std::fmt::Debug + Default {
+pub trait Al: 'static + Copy + Send + Sync + PartialEq + Eq + std::fmt::Debug + Default + Hash {
     const ALIGN: usize;
 }
 macro_rules! al {
     ($n:ident, $a:literal) => {
-        #[derive(Clone, Copy, PartialEq, Eq, Debug, Default)]
+        #[derive(Clone, Copy, PartialEq, Eq, Debug, Default, Hash)]
         #[repr(align($a))]
         pub struct $n;
         impl Al for $n {
@@ -513,5 +513,41 @@ pub trait Probe {
 impl<P: Payload> Probe for P {
     fn probe(&self) -> Peek {
         self.peekp()
+    }
+}
+
+/// A payload WITHOUT drop glue (`mem::needs_drop` is false): reads and writes are still
+/// instrumented for the schedule engine, but there is no identity and no destructor.
+#[derive(PartialEq, Eq, Hash, Debug, Default)]
+#[repr(C)]
+pub struct Plain<A: Al> {
+    _a: [A; 0],
+    val: u64,
+}
+pub type Plain8 = Plain<A8>;
+pub type Plain16 = Plain<A16>;
+
+impl<A: Al> Clone for Plain<A> {
+    fn clone(&self) -> Self {
+        callback_point("clone");
+        untracked(|| reg().clones += 1);
+        Plain { _a: [], val: self.peekp().val }
+    }
+}
+
+impl<A: Al> Payload for Plain<A> {
+    fn make(val: u64) -> Self {
+        Plain { _a: [], val }
+    }
+    fn peekp(&self) -> Peek {
+        sim::payload_access(self as *const Self as usize, sim::Access::Read);
+        Peek { id: NONE, val: self.val, ok: true }
+    }
+    fn setp(&mut self, val: u64) {
+        sim::payload_access(self as *const Self as usize, sim::Access::Write);
+        self.val = val;
+    }
+    fn tyname() -> String {
+        format!("Plain<align {}> (no drop glue)", A::ALIGN)
     }
 }
